@@ -174,6 +174,13 @@ var int64Val interface{} = int64(1)
 	u := newTprog("atomic-conc", "sync/atomic", "runtime")
 	u.files["zz_atomiclib.go"] = atomicLib
 	kops := nops / 4
+	if kops > 20000 {
+		kops = 20000 // channel hand-offs and contended CAS loops are slow on both sides
+	}
+	kfree := kops
+	if kfree > 4000 {
+		kfree = 4000
+	}
 	fmt.Fprintf(&u.blocks, `func roundRobin() {
 	d := begin("atomic.mixed/round-robin")
 	const G = 4
@@ -318,7 +325,7 @@ func freeRunning() {
 	d.end()
 }
 
-`, kops, seed(), kops/5+1, kops)
+`, kops, seed(), kops/5+1, kfree)
 	u.calls = append(u.calls, "\tif want(\"atomic.mixed/round-robin\") {\n\t\troundRobin()\n\t}\n", "\tif want(\"atomic.Add/free-running\") {\n\t\tfreeRunning()\n\t}\n")
 	return []*tprog{t, u}
 }
